@@ -269,7 +269,7 @@ def run_shard(ctx, args):
     rng = ctx.rng
     classes = ["tiny", "general", "forcedrot", "general", "itembin",
                "smallgrid", "smallgrid", "dtype", "shipped", "unit", "twins",
-               "twins"]
+               "twins", "count"]
     names = None
     for it in range(args["n"]):
         cls = classes[it % len(classes)]
